@@ -681,6 +681,11 @@ def shapesR : List AShape :=
   ([AShape.kw ['a'], .kw ['b'], .expr false .str].flatMap fun l =>
     [AShape.lit .int, .expr false .null, .expr true .tuple].map fun r => AShape.rule l r)
 
+/-- keep the last occurrence of every element -/
+def dedup {α : Type} [DecidableEq α] : List α → List α
+  | [] => []
+  | a :: r => if r.contains a then dedup r else a :: dedup r
+
 def prod : List (List AShape) → List (List AShape)
   | [] => [[]]
   | l :: r => l.flatMap fun a => (prod r).map fun as => a :: as
@@ -702,7 +707,7 @@ def anyRecv : List (Option Kind) := Kind.all.map some
 def arities (wide : Nat) (lo hi : Nat) : List (List (List AShape)) :=
   (List.range (hi + 2 - lo)).map fun d =>
     let n := lo + d
-    (List.range n).map fun i => if n ≤ hi then (if i < wide then shapesS else shapesT) else shapesU
+    (List.range n).map fun i => if n ≤ hi then (if i < wide then shapesS else shapesU) else shapesU
 
 /-- the calls of one builtin by name: `mLo .. mHi` arguments behind the receiver / as a function -/
 def fnPatterns (f : Fn) : List Pattern :=
@@ -740,7 +745,7 @@ def patterns : Callee → List Pattern
   | .list => [⟨noRecv, []⟩, ⟨noRecv, [shapesS]⟩, ⟨noRecv, [shapesS, shapesS]⟩, ⟨noRecv, [shapesU, shapesU, shapesU]⟩]
   | .map => [⟨noRecv, []⟩, ⟨noRecv, [shapesR]⟩, ⟨noRecv, [shapesR, shapesR]⟩]
   | .indexer =>
-    [⟨noRecv, [shapesS]⟩, ⟨noRecv, [shapesS, shapesS]⟩, ⟨noRecv, [shapesS, shapesS, shapesT]⟩,
+    [⟨noRecv, [shapesS]⟩, ⟨noRecv, [shapesS, shapesS]⟩, ⟨noRecv, [shapesS, shapesS, shapesU]⟩,
      ⟨noRecv, [shapesU, shapesU, shapesU, shapesU]⟩]
   | .dot => [⟨noRecv, [shapesFn, [.kw ['a'], .kw ['l', 'e', 'n']]]⟩, ⟨noRecv, [shapesFn, [.expr true .null, .expr true .int]]⟩]
   | .arrow => [⟨noRecv, [shapesS, shapesS]⟩]
@@ -756,7 +761,7 @@ def fragment : List CallShape :=
 /-! ### quotient of the shapes by what the parameter types of one group can observe -/
 
 def groupTypes (g : Group) : List PTy :=
-  (g.members.flatMap fun d => d.fd.params.map (·.ty)).eraseDups
+  dedup (g.layers.flatMap fun l => l.fns.flatMap fun fd => fd.params.map (·.ty))
 
 /-- everything resolution over the parameter types `ts` can see of an argument that is no mapping rule: the
     verdict of every type on the unevaluated and on the evaluated argument, whether it is evaluable, and the
@@ -783,7 +788,7 @@ def CallShape.rep (r : Reps) (s : CallShape) : CallShape :=
   { s with receiver := s.receiver.map r.kind, args := s.args.map r.app }
 
 def Pattern.rep (r : Reps) (p : Pattern) : Pattern :=
-  { recv := (p.recv.map fun o => o.map r.kind).eraseDups, pos := p.pos.map fun l => (l.map r.app).eraseDups }
+  { recv := dedup (p.recv.map fun o => o.map r.kind), pos := p.pos.map fun l => dedup (l.map r.app) }
 
 /-- every shape of the pattern dispatches like its representative -/
 def Pattern.invOk (c : Callee) (r : Reps) (p : Pattern) : Bool :=
@@ -793,10 +798,13 @@ def Pattern.invOk (c : Callee) (r : Reps) (p : Pattern) : Bool :=
 def Pattern.repsOk (U : Universe) (g : Group) (c : Callee) (r : Reps) (p : Pattern) : Bool :=
   ((p.rep r).shapes c).all fun s => dispatchOf s == some (resolveIn U g s)
 
+/-- every argument shape that is no mapping rule, up to the name a keyword constant carries -/
+def obsShapes : List AShape := shapesFn ++ Kind.all.map AShape.value
+
 /-- the representatives look the same to every parameter type of the group -/
 def Reps.obsOk (U : Universe) (g : Group) (r : Reps) : Bool :=
   let ts := groupTypes g
-  (shapesFn ++ Kind.all.map AShape.value).all fun a => obs U ts (r.app a) == obs U ts a
+  obsShapes.all fun a => obs U ts (r.app a) == obs U ts a
 
 /-- the same check without a quotient -/
 def Pattern.directOk (U : Universe) (g : Group) (c : Callee) (p : Pattern) : Bool :=
